@@ -24,6 +24,12 @@ pub fn small_db(rng: &mut Rng) -> Database {
         g.children.push(Node::Entry(e));
     }
     db.root.children.push(Node::Group(g));
+    // sometimes an attachment in the inner header: small, or large and incompressible (a picture,
+    // an archive) - the payload then does not shrink under gzip and crosses internal buffer sizes
+    if rng.chance(1, 3) {
+        let n = if rng.chance(3, 4) { rng.below(200) as usize } else { *rng.pick(&[40_000usize, 70_000, 100_000]) };
+        db.header_attachments.push(keepass::db::HeaderAttachment { flags: 1, content: rng.bytes(n) });
+    }
     db
 }
 
@@ -84,9 +90,16 @@ pub fn run(args: &Args) {
         let pieces_s = slist(pieces.iter().map(|p| hexatom(p)));
         let len = full.len();
         let mut sample = String::new();
-        for j in 0..per_case {
+        // large files (an incompressible attachment): fewer schedules with caps of several KiB - the list
+        // model is quadratic in the number of writes
+        let big = len > 20_000;
+        for j in 0..(if big { 6 } else { per_case }) {
             // schedules: short writes with and without a failure; failure offsets sweep the file
             let mut sched = Schedule { script: gen_script(rng, len), fail: None };
+            if big {
+                let cap = *rng.pick(&[4096usize, 7000, 16_384, 32_768, 65_536]);
+                sched.script = (0..(len / cap + 3)).map(|_| crate::io_script::Act::Chunk(cap)).collect();
+            }
             if j % 3 != 0 {
                 let kinds = [std::io::ErrorKind::Other, std::io::ErrorKind::WriteZero, std::io::ErrorKind::BrokenPipe];
                 let off = match rng.below(6) { 0 => 0, 1 => len - 1, 2 => len, 3 => len + 5, 4 => hl + rng.below(70) as usize, _ => rng.below(len as u64 + 1) as usize };
